@@ -245,6 +245,8 @@ package spynode
 //@   requires node != nil && forall(j, 0, len(pushDatas), bloblen(sliceblob(pushDatas[j])) == len(pushDatas[j]))
 //@   loop 0 invariant 0 <= _i && _i <= len(pushDatas)
 //@   loop 1 invariant 0 <= _i && _i <= len(node.pushDataHashes) && sinceloop(same(node.pushDataHashes)) && forall(k, 0, _i, node.pushDataHashes[k] != hash) && hash == pushhash(old(sliceblob(pd)))
+// every value of the batch is processed: the call returns only once the walk over pushDatas is complete
+//@   ensures whole_batch_processed afterloop 0 : [C08] result == nil && _i0 == len(pushDatas)
 //@   assert removes_first_match_only at afterloop 1 : [C08] (len(node.pushDataHashes) == sinceloop(old(len(node.pushDataHashes))) && forall(k, 0, len(node.pushDataHashes), node.pushDataHashes[k] != hash) && sinceloop(forall(k, 0, len(node.pushDataHashes), node.pushDataHashes[k] == old(node.pushDataHashes[k]))))
 //@         || (len(node.pushDataHashes) == sinceloop(old(len(node.pushDataHashes))) - 1 && sinceloop(old(node.pushDataHashes[_i])) == hash
 //@               && sinceloop(forall(k, 0, _i, node.pushDataHashes[k] == old(node.pushDataHashes[k]))) && sinceloop(forall(k, _i, len(node.pushDataHashes), node.pushDataHashes[k] == old(node.pushDataHashes[k+1]))))
